@@ -85,9 +85,9 @@ def cexpr(n, env):
         return (ty, "(nn_mask %s %s)" % (stm, tm))
     raise Untranslatable(n, "subscript is not a declared cell of the loop state")
   if isinstance(n, ast.IfExp):
-    # 1. if gamma is np.inf else gamma / (gamma + 1.)
+    # 1. if gamma is np.inf else gamma / (gamma + 1.)   (`==` as well: the value, not the object)
     t = n.test
-    if isinstance(t, ast.Compare) and len(t.ops) == 1 and isinstance(t.ops[0], ast.Is) \
+    if isinstance(t, ast.Compare) and len(t.ops) == 1 and isinstance(t.ops[0], (ast.Is, ast.Eq)) \
         and isinstance(t.left, ast.Name) and is_attr(t.comparators[0], 'np', 'inf') \
         and env.vars.get(t.left.id, (None,))[0] == 'SX':
       x = t.left.id
